@@ -554,7 +554,9 @@ Definition build_public (p : prog) (r : request) : res model :=
                 (* first build without requested arguments, then request the used inputs in the given order *)
                 do b1 <- build_main FF (with_main p None outputs) un 0 ;;
                 let used := b_args b1 in
-                ret (filter (fun v => mem var_eqb v used) ivars ++ filter (fun v => negb (mem var_eqb v ivars)) used)%list
+                (* an argument that is used but not listed is refused here, compared as a Var (its generated name may equal a listed name) *)
+                if forallb (fun v => mem var_eqb v ivars) used then ret (filter (fun v => mem var_eqb v used) ivars)
+                else raise EKey
               else ret ivars) ;;
   do b <- build_main FF (with_main p (Some args) outputs) un 0 ;;
   do m <- to_model b ;;
